@@ -50,6 +50,12 @@ func (v *V) String() string {
 		return v.Name + as[0]
 	case "tuple":
 		return as[0] + "#" + v.Name
+	case "rangeval":
+		return "each(" + as[0] + ")"
+	case "rangekey":
+		return "eachkey(" + as[0] + ")"
+	case "len":
+		return "len(" + as[0] + ")"
 	default:
 		return v.Kind + ":" + v.Name + "(" + strings.Join(as, ", ") + ")"
 	}
@@ -113,6 +119,7 @@ type Resolver struct {
 	F       *Func
 	defs    map[types.Object][]defSite
 	rdCache map[*ast.Ident]*defSite
+	active  map[types.Object]bool
 	depth   int
 }
 
@@ -263,10 +270,25 @@ func (r *Resolver) Val(e ast.Expr) *V {
 			if o.IsField() {
 				return &V{Kind: "var", Name: x.Name, Obj: o, Node: e}
 			}
+			if r.active == nil {
+				r.active = map[types.Object]bool{}
+			}
+			if r.active[o] {
+				return &V{Kind: "var", Name: x.Name, Obj: o, Node: e} // loop-carried / self-referential definition
+			}
+			r.active[o] = true
+			defer delete(r.active, o)
 			if d, ok := r.SingleDef(o); ok && d.kind == "assign" && d.rhs != nil {
 				if v := r.valOfDef(d, e); v != nil {
 					return v
 				}
+			}
+			if d, ok := r.SingleDef(o); ok && (d.kind == "range-key" || d.kind == "range-val") && d.rangeX != nil {
+				k := "rangeval"
+				if d.kind == "range-key" {
+					k = "rangekey"
+				}
+				return &V{Kind: k, Name: x.Name, Obj: o, Node: e, Args: []*V{r.Val(d.rangeX)}}
 			}
 			if d, ok := r.reachingDef(x, o); ok {
 				if v := r.valOfDef(d, e); v != nil {
